@@ -13,10 +13,16 @@ Open Scope N_scope.
 
 Inductive fragref := FProbe | FReq (mid : nat) (slot : N).
 
-Record pmsg := { pm_client : nat; pm_sm : smsg; pm_reqs : list (N * bytes) }.
-Record pclient := { pc_open : bool; pc_left : bytes; pc_queue : list nat; pc_got : bytes }.
+(* ghost fields (never read by the step functions): pm_seq numbers the requests of one client in
+   arrival order; pc_sent / pc_hist log which request's reply was appended to the client's socket;
+   ps_written logs every fragment written to the backend socket, ps_taken counts consumed replies *)
+Record pmsg := { pm_client : nat; pm_sm : smsg; pm_reqs : list (N * bytes); pm_seq : nat }.
+Record pclient := { pc_open : bool; pc_left : bytes; pc_queue : list nat; pc_got : bytes;
+                     pc_sent : nat; pc_hist : list (nat * bytes);
+                     pc_closing : bool }.   (* QUIT received: close once the queue has been flushed *)
 Record pserver := { ps_open : bool; ps_addr : bytes; ps_slave : bool; ps_initializing : bool; ps_step : Z;
-                    ps_left : bytes; ps_outq : list fragref; ps_inq : list fragref; ps_got : bytes }.
+                    ps_left : bytes; ps_outq : list fragref; ps_inq : list fragref; ps_got : bytes;
+                    ps_written : list fragref; ps_taken : nat }.
 Record ppool := { pp_addr : bytes; pp_slave : bool; pp_conns : list nat; pp_closed : bool; pp_dialable : bool }.
 Inductive ptask := TWrite (sid : nat) | TClose (sid : nat) | TProbe (sid : nat).
 
@@ -77,6 +83,9 @@ Definition msg_done (st : pst) (mid : nat) : bool :=
 Definition msg_rsp (st : pst) (mid : nat) : bytes :=
   match lookup mid (msgs st) with Some m => sm_rsp (pm_sm m) | None => [] end.
 
+Definition msg_seq (st : pst) (mid : nat) : nat :=
+  match lookup mid (msgs st) with Some m => pm_seq m | None => 0 end.
+
 Fixpoint done_prefix (st : pst) (q : list nat) : list nat * list nat :=
   match q with
   | [] => ([], [])
@@ -90,8 +99,13 @@ Definition flush_done (st : pst) (c : nat) : pst :=
       let '(d, rest) := done_prefix st (pc_queue cl) in
       match d with
       | [] => st
-      | _ => set_client st c {| pc_open := pc_open cl; pc_left := pc_left cl; pc_queue := rest;
-                                pc_got := pc_got cl ++ concat (map (msg_rsp st) d) |}
+      | _ =>
+          let closed := (pc_closing cl && match rest with [] => true | _ => false end)%bool in
+          set_client st c {| pc_open := if closed then false else pc_open cl; pc_left := if closed then [] else pc_left cl;
+                             pc_queue := rest;
+                             pc_got := pc_got cl ++ concat (map (msg_rsp st) d); pc_sent := pc_sent cl;
+                             pc_hist := pc_hist cl ++ map (fun m => (msg_seq st m, msg_rsp st m)) d;
+                             pc_closing := pc_closing cl |}
       end
   end.
 
@@ -104,7 +118,7 @@ Definition flush_if_open (st : pst) (c : nat) : pst :=
 (* complete a request with a proxy error (finish_error of the merge model) *)
 Definition fail_msg (st : pst) (mid : nat) (e : bytes) : pst :=
   match lookup mid (msgs st) with
-  | Some m => set_msg st mid {| pm_client := pm_client m; pm_sm := finish_error (pm_sm m) e; pm_reqs := pm_reqs m |}
+  | Some m => set_msg st mid {| pm_client := pm_client m; pm_sm := finish_error (pm_sm m) e; pm_reqs := pm_reqs m; pm_seq := pm_seq m |}
   | None => st
   end.
 
@@ -117,7 +131,7 @@ Definition frag_done (st : pst) (mid : nat) (slot : N) : bool :=
 (* ---- closeConn ---- *)
 Definition close_client (st : pst) (c : nat) : pst :=
   match lookup c (clients st) with
-  | Some cl => if pc_open cl then set_client st c {| pc_open := false; pc_left := []; pc_queue := []; pc_got := pc_got cl |} else st
+  | Some cl => if pc_open cl then set_client st c {| pc_open := false; pc_left := []; pc_queue := []; pc_got := pc_got cl; pc_sent := pc_sent cl; pc_hist := pc_hist cl; pc_closing := pc_closing cl |} else st
   | None => st
   end.
 
@@ -141,7 +155,7 @@ Definition close_server (st : pst) (s : nat) : pst :=
         let st1 := fail_frags st (ps_inq sv ++ ps_outq sv) in
         let st2 := set_inflight st1 (filter (fun p => negb (Nat.eqb (fst p) s)) (inflight st1)) in
         set_server st2 s {| ps_open := false; ps_addr := ps_addr sv; ps_slave := ps_slave sv; ps_initializing := false;
-                            ps_step := (-1)%Z; ps_left := []; ps_outq := []; ps_inq := []; ps_got := ps_got sv |}
+                            ps_step := (-1)%Z; ps_left := []; ps_outq := []; ps_inq := []; ps_got := ps_got sv; ps_written := ps_written sv; ps_taken := ps_taken sv |}
       else st
   | None => st
   end.
@@ -156,7 +170,7 @@ Definition dial (st : pst) (p : ppool) : option (pst * nat) :=
     let '(hs, step) := on_s_opened (cf_password (cfg st)) (pp_slave p) in
     let sv := {| ps_open := true; ps_addr := pp_addr p; ps_slave := pp_slave p;
                  ps_initializing := match hs with [] => false | _ => true end; ps_step := step;
-                 ps_left := []; ps_outq := []; ps_inq := []; ps_got := hs |} in
+                 ps_left := []; ps_outq := []; ps_inq := []; ps_got := hs; ps_written := []; ps_taken := 0 |} in
     Some (bump_sid (set_server st s sv), s)
   else None.
 
@@ -212,7 +226,7 @@ Definition enqueue_out (st : pst) (s : nat) (f : fragref) : pst :=
   | Some sv =>
       let st1 := set_server st s {| ps_open := ps_open sv; ps_addr := ps_addr sv; ps_slave := ps_slave sv;
                                     ps_initializing := ps_initializing sv; ps_step := ps_step sv; ps_left := ps_left sv;
-                                    ps_outq := ps_outq sv ++ [f]; ps_inq := ps_inq sv; ps_got := ps_got sv |} in
+                                    ps_outq := ps_outq sv ++ [f]; ps_inq := ps_inq sv; ps_got := ps_got sv; ps_written := ps_written sv; ps_taken := ps_taken sv |} in
       set_tasks st1 (tasks st1 ++ [TWrite s])
   | None => st
   end.
@@ -247,15 +261,26 @@ Definition local_reply (st : pst) (c : nat) (m : cmsg) (out : bytes) (close : bo
   | Some cl =>
       let st1 :=
         match pc_queue cl with
-        | [] => set_client st c {| pc_open := pc_open cl; pc_left := pc_left cl; pc_queue := []; pc_got := pc_got cl ++ out |}
+        | [] => set_client st c {| pc_open := pc_open cl; pc_left := pc_left cl; pc_queue := []; pc_got := pc_got cl ++ out;
+                                   pc_sent := S (pc_sent cl); pc_hist := pc_hist cl ++ [(pc_sent cl, out)]; pc_closing := pc_closing cl |}
         | _ =>
             let mid := next_mid st in
             let sm := {| sm_type := cm_type m; sm_keys := cm_keys m; sm_frags := []; sm_done_number := 0; sm_del_num := 0;
                          sm_done := true; sm_rsp := out; sm_error := [] |} in
-            let st' := bump_mid (set_msg st mid {| pm_client := c; pm_sm := sm; pm_reqs := [] |}) in
-            set_client st' c {| pc_open := pc_open cl; pc_left := pc_left cl; pc_queue := pc_queue cl ++ [mid]; pc_got := pc_got cl |}
+            let st' := bump_mid (set_msg st mid {| pm_client := c; pm_sm := sm; pm_reqs := []; pm_seq := pc_sent cl |}) in
+            set_client st' c {| pc_open := pc_open cl; pc_left := pc_left cl; pc_queue := pc_queue cl ++ [mid]; pc_got := pc_got cl;
+                                pc_sent := S (pc_sent cl); pc_hist := pc_hist cl; pc_closing := pc_closing cl |}
         end in
-      if close then close_client st1 c else st1
+      if close then
+        match pc_queue cl with
+        | [] => close_client st1 c
+        | _ => match lookup c (clients st1) with
+               | Some cl1 => set_client st1 c {| pc_open := pc_open cl1; pc_left := pc_left cl1; pc_queue := pc_queue cl1; pc_got := pc_got cl1;
+                                                 pc_sent := pc_sent cl1; pc_hist := pc_hist cl1; pc_closing := true |}
+               | None => st1
+               end
+        end
+      else st1
   end.
 
 Fixpoint insert_slot {A} (x : N * A) (l : list (N * A)) : list (N * A) :=
@@ -289,12 +314,14 @@ Definition on_request (st : pst) (c : nat) (m : cmsg) : pst :=
         local_reply st c m e false
     | (st1, inl targets) =>
         let mid := next_mid st1 in
+        let seqno := match lookup c (clients st1) with Some cl => pc_sent cl | None => O end in
         let pm := {| pm_client := c; pm_sm := smsg_of m (groups_for m);
-                     pm_reqs := map (fun sf => (fst sf, cf_req (snd sf))) (cm_body m) |} in
+                     pm_reqs := map (fun sf => (fst sf, cf_req (snd sf))) (cm_body m); pm_seq := seqno |} in
         let st2 := bump_mid (set_msg st1 mid pm) in
         let st3 := fold_left (fun s t => enqueue_out s (snd t) (FReq mid (fst t))) targets st2 in
         match lookup c (clients st3) with
-        | Some cl => set_client st3 c {| pc_open := pc_open cl; pc_left := pc_left cl; pc_queue := pc_queue cl ++ [mid]; pc_got := pc_got cl |}
+        | Some cl => set_client st3 c {| pc_open := pc_open cl; pc_left := pc_left cl; pc_queue := pc_queue cl ++ [mid]; pc_got := pc_got cl;
+                                         pc_sent := S (pc_sent cl); pc_hist := pc_hist cl; pc_closing := pc_closing cl |}
         | None => st3
         end
     end.
@@ -307,10 +334,10 @@ Fixpoint client_loop (fuel : nat) (st : pst) (c : nat) (buf : bytes) : pst :=
       match lookup c (clients st) with
       | None => st
       | Some cl =>
-          if negb (pc_open cl) then st
+          if (negb (pc_open cl) || pc_closing cl)%bool then st
           else
             match decode (cf_limit (cfg st)) buf with
-            | DWait => set_client st c {| pc_open := true; pc_left := buf; pc_queue := pc_queue cl; pc_got := pc_got cl |}
+            | DWait => set_client st c {| pc_open := true; pc_left := buf; pc_queue := pc_queue cl; pc_got := pc_got cl; pc_sent := pc_sent cl; pc_hist := pc_hist cl; pc_closing := pc_closing cl |}
             | DClose => close_client st c
             | DCrash | DHang => st
             | DOk m n => client_loop f (on_request st c m) c (skipn n buf)
@@ -320,7 +347,7 @@ Fixpoint client_loop (fuel : nat) (st : pst) (c : nat) (buf : bytes) : pst :=
 
 Definition client_data (st : pst) (c : nat) (b : bytes) : pst :=
   match lookup c (clients st) with
-  | Some cl => if pc_open cl then client_loop (S (length (pc_left cl ++ b))) st c (pc_left cl ++ b) else st
+  | Some cl => if (pc_open cl && negb (pc_closing cl))%bool then client_loop (S (length (pc_left cl ++ b))) st c (pc_left cl ++ b) else st
   | None => st
   end.
 
@@ -385,7 +412,8 @@ Definition run_task (st : pst) (order : nat -> list N) (t : ptask) : pst :=
                    let st1 := set_server st s {| ps_open := true; ps_addr := ps_addr sv; ps_slave := ps_slave sv;
                                                  ps_initializing := ps_initializing sv; ps_step := ps_step sv; ps_left := ps_left sv;
                                                  ps_outq := []; ps_inq := ps_inq sv ++ q';
-                                                 ps_got := ps_got sv ++ concat (map (frag_req st) q') |} in
+                                                 ps_got := ps_got sv ++ concat (map (frag_req st) q');
+                                                 ps_written := ps_written sv ++ q'; ps_taken := ps_taken sv |} in
                    if cf_timeout (cfg st)
                    then set_inflight st1 (inflight st1 ++ map (fun f => (s, f)) (filter (fun f => match f with FReq _ _ => true | FProbe => false end) q'))
                    else st1
@@ -459,7 +487,7 @@ Definition on_reply (st : pst) (s : nat) (ty : N) (rsp : bytes) : result pst :=
       | f :: inq' =>
           let st0 := set_inflight (set_server st s {| ps_open := ps_open sv; ps_addr := ps_addr sv; ps_slave := ps_slave sv;
                                         ps_initializing := ps_initializing sv; ps_step := ps_step sv; ps_left := ps_left sv;
-                                        ps_outq := ps_outq sv; ps_inq := inq'; ps_got := ps_got sv |})
+                                        ps_outq := ps_outq sv; ps_inq := inq'; ps_got := ps_got sv; ps_written := ps_written sv; ps_taken := S (ps_taken sv) |})
                                   (remove_first_inflight s f (inflight st)) in
           match f with
           | FProbe => if is_auth_failure ty then RShutdown else ROk st0      (* handed to the topology refresh *)
@@ -477,7 +505,7 @@ Definition on_reply (st : pst) (s : nat) (ty : N) (rsp : bytes) : result pst :=
                     | Fine (Some sm') =>
                         if is_auth_failure ty then RShutdown
                         else
-                          let st1 := set_msg st0 mid {| pm_client := pm_client m; pm_sm := sm'; pm_reqs := pm_reqs m |} in
+                          let st1 := set_msg st0 mid {| pm_client := pm_client m; pm_sm := sm'; pm_reqs := pm_reqs m; pm_seq := pm_seq m |} in
                           match lookup (pm_client m) (clients st1) with
                           | None => ROk st1
                           | Some cl =>
@@ -493,50 +521,56 @@ Definition on_reply (st : pst) (s : nat) (ty : N) (rsp : bytes) : result pst :=
       end
   end.
 
-(* eventloop.read on a backend connection: handshake decoder, then one reply after the other *)
+(* eventloop.read on a backend connection: handshake decoder, then one reply after the other.
+   [k] is the rest of the loop (the recursive call). *)
+Definition with_left (st : pst) (s : nat) (b : bytes) : pst :=
+  match lookup s (servers st) with
+  | Some sv => set_server st s {| ps_open := ps_open sv; ps_addr := ps_addr sv; ps_slave := ps_slave sv;
+                                  ps_initializing := ps_initializing sv; ps_step := ps_step sv; ps_left := b;
+                                  ps_outq := ps_outq sv; ps_inq := ps_inq sv; ps_got := ps_got sv;
+                                  ps_written := ps_written sv; ps_taken := ps_taken sv |}
+  | None => st
+  end.
+
+Definition decode_reply (k : pst -> nat -> bytes -> result pst) (st : pst) (s : nat) (buf : bytes) : result pst :=
+  match sdecode buf with
+  | SWait => ROk (with_left st s buf)
+  | SSpin => RHang (bs "malformed reply from a backend (the loop continues without consuming)")
+  | SHang => RHang (bs "reply decoder")
+  | SReply ty n =>
+      match on_reply st s ty (firstn n buf) with
+      | ROk st' => k st' s (skipn n buf)
+      | other => other
+      end
+  end.
+
+Definition server_iter (k : pst -> nat -> bytes -> result pst) (st : pst) (s : nat) (buf : bytes) : result pst :=
+  match lookup s (servers st) with
+  | None => ROk st
+  | Some sv =>
+      if negb (ps_open sv) then ROk st
+      else if ps_initializing sv then
+        match init_decode (ps_step sv) buf with
+        | IWait => ROk (with_left st s buf)
+        | IInvalid => RHang (bs "handshake reply invalid (the loop continues without consuming)")
+        | IDone n =>
+            let st1 := set_server st s {| ps_open := true; ps_addr := ps_addr sv; ps_slave := ps_slave sv;
+                                          ps_initializing := false; ps_step := ps_step sv; ps_left := [];
+                                          ps_outq := ps_outq sv; ps_inq := ps_inq sv; ps_got := ps_got sv;
+                                          ps_written := ps_written sv; ps_taken := ps_taken sv |} in
+            match skipn n buf with
+            | [] => ROk st1
+            | rest => decode_reply k st1 s rest
+            end
+        | IPass => decode_reply k st s buf
+        end
+      else decode_reply k st s buf
+  end.
+
 Fixpoint server_loop (fuel : nat) (st : pst) (s : nat) (buf : bytes) : result pst :=
   match fuel with
   | O => ROk st
-  | S f =>
-      match lookup s (servers st) with
-      | None => ROk st
-      | Some sv =>
-          if negb (ps_open sv) then ROk st
-          else
-            let save b := set_server st s {| ps_open := true; ps_addr := ps_addr sv; ps_slave := ps_slave sv;
-                                             ps_initializing := ps_initializing sv; ps_step := ps_step sv; ps_left := b;
-                                             ps_outq := ps_outq sv; ps_inq := ps_inq sv; ps_got := ps_got sv |} in
-            let decode_reply (st : pst) (buf : bytes) :=
-              match sdecode buf with
-              | SWait => ROk (match lookup s (servers st) with
-                              | Some sv' => set_server st s {| ps_open := ps_open sv'; ps_addr := ps_addr sv'; ps_slave := ps_slave sv';
-                                                               ps_initializing := ps_initializing sv'; ps_step := ps_step sv'; ps_left := buf;
-                                                               ps_outq := ps_outq sv'; ps_inq := ps_inq sv'; ps_got := ps_got sv' |}
-                              | None => st end)
-              | SSpin => RHang (bs "malformed reply from a backend (the loop continues without consuming)")
-              | SHang => RHang (bs "reply decoder")
-              | SReply ty n =>
-                  match on_reply st s ty (firstn n buf) with
-                  | ROk st' => server_loop f st' s (skipn n buf)
-                  | other => other
-                  end
-              end in
-            if ps_initializing sv then
-              match init_decode (ps_step sv) buf with
-              | IWait => ROk (save buf)
-              | IInvalid => RHang (bs "handshake reply invalid (the loop continues without consuming)")
-              | IDone n =>
-                  let st1 := set_server st s {| ps_open := true; ps_addr := ps_addr sv; ps_slave := ps_slave sv;
-                                                ps_initializing := false; ps_step := ps_step sv; ps_left := [];
-                                                ps_outq := ps_outq sv; ps_inq := ps_inq sv; ps_got := ps_got sv |} in
-                  match skipn n buf with
-                  | [] => ROk st1
-                  | rest => decode_reply st1 rest
-                  end
-              | IPass => decode_reply st buf
-              end
-            else decode_reply st buf
-      end
+  | S f => server_iter (server_loop f) st s buf
   end.
 
 Definition server_data (st : pst) (s : nat) (b : bytes) : result pst :=
@@ -594,12 +628,17 @@ Inductive event :=
 Definition order_fn (l : list (nat * list N)) (s : nat) : list N :=
   match lookup s l with Some o => o | None => [] end.
 
+Definition task_fuel (st : pst) : nat := S (length (tasks st)) * 4 + 64.
+
 Definition step (st : pst) (e : event) : result pst :=
   match e with
   | EConnect c admitted =>
-      ROk (set_client st c {| pc_open := admitted; pc_left := []; pc_queue := []; pc_got := [] |})
+      match lookup c (clients st) with
+      | Some _ => ROk st                       (* connection identifiers are never reused *)
+      | None => ROk (set_client st c {| pc_open := admitted; pc_left := []; pc_queue := []; pc_got := []; pc_sent := 0; pc_hist := []; pc_closing := false |})
+      end
   | EClientData c b totals => ROk (ensure_dials (client_data st c b) totals)
-  | ETasks order => ROk (run_tasks (S (length (tasks st)) * 4 + 64) st (order_fn order))
+  | ETasks order => ROk (run_tasks (task_fuel st) st (order_fn order))
   | EServerData s b => server_data st s b
   | EClientClose c => ROk (close_client st c)
   | EServerClose s => ROk (close_server st s)
